@@ -83,7 +83,32 @@ type pathCase struct {
 	Query string   `json:"query"`
 	Xa    string   `json:"xa"`
 	Ci    bool     `json:"ci"`
+	Mk    string   `json:"mk"` // headers of MOSN's own vocabulary the request already carries (RouteAction.tla Markers)
 }
+type hopCase struct {
+	H1   rewriteCfg `json:"h1"`
+	H2   rewriteCfg `json:"h2"`
+	Path []string   `json:"path"`
+}
+type rewriteCfg struct {
+	Pr []string `json:"pr"`
+	Rr string   `json:"rr"`
+}
+
+// markers adds to hdr what a request of marker class mk already carries.
+func markers(hdr map[string]string, mk, path string) {
+	switch mk {
+	case "orig-same":
+		hdr[types.HeaderOriginalPath] = path
+	case "orig-other":
+		hdr[types.HeaderOriginalPath] = "/zz"
+	case "xmosn":
+		hdr[types.VarHost] = "evil.host"
+		hdr[types.VarPath] = "/evil"
+		hdr[types.VarQueryString] = "evil=1"
+	}
+}
+
 type redirCase struct {
 	Scheme string `json:"scheme"`
 	Rhost  string `json:"rhost"`
@@ -94,6 +119,7 @@ type redirCase struct {
 		P string `json:"p"`
 	} `json:"host"`
 	Query string `json:"query"`
+	Mk    string `json:"mk"`
 }
 type directCase struct {
 	Status int    `json:"status"`
@@ -544,7 +570,15 @@ func runAct(casesPath, tracePath string, shard, shards int) {
 		Routes: []e2e.RouteSpec{{Prefix: "/", Cluster: "up"}}, StreamFilters: probe})
 	lst2 := e2e.BuildListener(e2e.ListenerSpec{Name: "c17h2", Addr: laddr2, Downstream: "Http2", Upstream: "Http2",
 		Routes: []e2e.RouteSpec{{Prefix: "/", Cluster: "uph2"}}, StreamFilters: probe})
-	m := e2e.StartMosn(e2e.BuildConfig([]v2.Listener{lst, lst2}, clusters, e2e.ScratchLog(tmp)))
+	// second hop: an HTTP/1 listener of the same MOSN that the cluster "hop2" of the first listener points at
+	laddr3 := listenAddr2(laddr2)
+	for laddr3 == laddr {
+		laddr3 = e2e.FreeAddr()
+	}
+	clusters = append(clusters, e2e.BuildClusters([]e2e.ClusterSpec{{Name: "hop2", Hosts: []string{laddr3}}})...)
+	lst3 := e2e.BuildListener(e2e.ListenerSpec{Name: "c17b", Addr: laddr3, Downstream: "Http1", Upstream: "Http1",
+		Routes: []e2e.RouteSpec{{Prefix: "/", Cluster: "up"}}})
+	m := e2e.StartMosn(e2e.BuildConfig([]v2.Listener{lst, lst2, lst3}, clusters, e2e.ScratchLog(tmp)))
 	defer m.Close()
 	vh.Must(e2e.WaitListen(laddr, 8*time.Second), "mosn listener")
 	vh.Must(e2e.WaitListen(laddr2, 8*time.Second), "mosn h2 listener")
@@ -663,6 +697,35 @@ func runAct(casesPath, tracePath string, shard, shards int) {
 			proto = "h2"
 		}
 		switch ac.Fam {
+		case "hop":
+			var c hopCase
+			if err := json.Unmarshal(ac.C, &c); err != nil {
+				return err
+			}
+			hopRoute := func(cluster string, rw rewriteCfg) v2.Router {
+				r := v2.Router{}
+				r.Match = v2.RouterMatch{Prefix: "/"}
+				r.Route = v2.RouteAction{RouterActionConfig: v2.RouterActionConfig{ClusterName: cluster, PrefixRewrite: strings.Join(rw.Pr, "")}}
+				if rw.Rr != "none" {
+					r.Route.RegexRewrite = &v2.RegexRewrite{Pattern: v2.PatternConfig{Regex: rxPattern[rw.Rr]}, Substitution: rxSubst[rw.Rr]}
+				}
+				return r
+			}
+			rc2 := routerConfig(v2.VirtualHost{Routers: []v2.Router{hopRoute("up", c.H2)}}, level{}, level{})
+			rc2.RouterConfigName = "c17b_router"
+			vh.Must(router.GetRoutersMangerInstance().AddOrUpdateRouters(rc2), "AddOrUpdateRouters hop 2")
+			setRouters(routerConfig(v2.VirtualHost{Routers: []v2.Router{hopRoute("hop2", c.H1)}}, level{}, level{}))
+			tok, o := do(strings.Join(c.Path, ""), map[string]string{"Host": "h.local"})
+			arr := up.take(tok)
+			ev := vh.Ev{"ev": "hop", "c": ac.C, "n": len(arr), "status": o.Status, "kind": o.Kind, "path": []string{}, "orig": []string{}}
+			if len(arr) > 0 {
+				p := arr[0].URI
+				if i := strings.Index(p, "?"); i >= 0 {
+					p = p[:i]
+				}
+				ev["path"], ev["orig"] = chars(p), chars(arr[0].Header.Get("X-Mosn-Original-Path"))
+			}
+			tr.Emit(ev)
 		case "pfc":
 			var c pfcCase
 			if err := json.Unmarshal(ac.C, &c); err != nil {
@@ -765,6 +828,7 @@ func runAct(casesPath, tracePath string, shard, shards int) {
 			if c.Ci { // the request spells the path in upper case (RouteAction.tla Up): a path rule still matches
 				uri = strings.NewReplacer("a", "A", "x", "X", "y", "Y", "z", "Z").Replace(path)
 			}
+			markers(hdr, c.Mk, uri)
 			if c.Query != "" {
 				uri += "?" + c.Query
 			}
@@ -798,7 +862,9 @@ func runAct(casesPath, tracePath string, shard, shards int) {
 			if c.Query != "" {
 				uri += "?" + c.Query
 			}
-			tok, o := do(uri, map[string]string{"Host": host})
+			rhdr := map[string]string{"Host": host}
+			markers(rhdr, c.Mk, "/a/x")
+			tok, o := do(uri, rhdr)
 			arr := up.take(tok)
 			tr.Emit(vh.Ev{"ev": "redir", "c": ac.C, "n": len(arr), "status": o.Status, "kind": o.Kind, "loc": o.Header.Get("Location"), "body": o.Body})
 		case "direct":
